@@ -10,7 +10,7 @@ THEOREMS = ["Econf.C20_readFile_out", "Econf.C20_readConfig_out", "Econf.C20_his
             "Econf.C20_readConfig_fresh", "Econf.C20_readConfig_no_leak", "Econf.C20_own_refines"]
 SHRINK = False
 RULE = ("API call sequences of C11 and layered reads of C01/C06/C13/C16 with a failure injected at each consulted file in turn "
-        "(callback rejection, foreign owner, malformed line, vanished file = dangling link, file removed by the callback while an earlier file is checked) and unknown options, through all read entry "
+        "(callback rejection, foreign owner, malformed line, vanished file = dangling link, file removed by the callback while an earlier file is checked) and unknown options and option values at the edge of their syntax (empty lists, empty elements, empty prefix), through all read entry "
         "points; after the caller has freed the valid handles the allocator's live-byte count (ASan) must be back at its mark; ASan "
         "reports double frees and use after free; out-pointers must be NULL, untouched or usable; the object events reported by the library "
         "(creation / release of every econf_file) must form a correct ledger (fresh ids, no release of a dead object) with nothing alive at the end, "
@@ -41,6 +41,10 @@ def ops(rng, sid):
     s.add("FREENULL")
     s.add("LEAK")
     return s
+
+
+ODD_OPTIONS = [b"PARSING_DIRS=", b"PARSING_DIRS=:", b"PARSING_DIRS=:/etc", b"PARSING_DIRS=/usr/etc::/etc", b"PARSING_DIRS=/usr/etc:", b"CONFIG_DIRS=",
+               b"CONFIG_DIRS=:", b"ROOT_PREFIX=", b"PARSING_DIRS=;JOIN_SAME_ENTRIES=1", b"ROOT_PREFIX=;PARSING_DIRS=:", b"CONFIG_DIRS=.d:;PARSING_DIRS=/etc"]
 
 
 def inject(rng, sid):
@@ -79,12 +83,19 @@ def inject(rng, sid):
                     t.files[i] = (f[0], "file", (f[2] if f[1] == "file" else b"") + b"[broken\n", f[3], f[4])
                 else:
                     t.files[i] = (f[0], "link", b"/nonexistent/target", None, None)
+    odd = None
+    if p["call"][0] == "RC" and rng.random() < 0.15:
+        # option values at the edge of their syntax on the caller's object: empty lists, empty elements, an empty prefix
+        odd = rng.choice(ODD_OPTIONS)
+        p["slot_pre"] = odd
     entry = None
     if p["call"][0] == "RD" and rng.random() < 0.4:
         entry = "RH"
     s = Scenario(sid, {"kind": "inject", "fault": fault, "entry": entry or p["call"][0], "shape": shape, "nfiles": len(files)})
     if impl_only:
         s.meta["impl_only"] = True
+    if odd is not None:
+        s.meta["odd_options"] = True
     t.emit(s)
     if p["global_confdirs"] is not None:
         p["global_confdirs"] = None      # the process-wide list stays allocated by design
@@ -191,5 +202,5 @@ def histogram(s, lines):
     evk = "object_events_%s" % ("0" if nev == 0 else "1-2" if nev <= 2 else "3-6" if nev <= 6 else "7-14" if nev <= 14 else "15+")
     if m.get("kind") == "inject":
         res = next((l for l in lines if l.startswith(("rc ", "rd ", "rh "))), "x x")
-        return ["inject_" + m["fault"], "entry_" + m["entry"], "result_" + res.split()[1], evk]
+        return ["inject_" + m["fault"], "entry_" + m["entry"], "result_" + res.split()[1], evk] + (["options_at_the_edge_of_their_syntax"] if m.get("odd_options") else [])
     return ["kind_" + m.get("kind", "corpus"), evk]
